@@ -111,8 +111,8 @@ func signStep(b *bundle.Bundle, s *bsigner, date time.Time, dur time.Duration, r
 	}
 	signer.Algorithm = &recorder{alg, s.kcs[0].certs[0].Raw, signed}
 	for _, e := range nb.Exchanges {
-		if !signer.CanSignForURL(e.Request.URL) {
-			continue
+		if !signer.CanSignForURL(e.Request.URL) || !s.hosts[e.Request.URL.Hostname()] {
+			continue // not this certificate's origin, or not what this signing step was asked to vouch for
 		}
 		pih, err := e.AddPayloadIntegrity(nb.Version, rs)
 		if err != nil {
@@ -292,7 +292,11 @@ func bsigRun(args []string) error {
 	k8.certs[0].DNSNames = []string{hostB} // the harness decides coverage by its own host table; the certificate bytes stay as signed
 	s7 := &bsigner{"s7", []*keyCert{k7}, map[string]bool{hostA: true}}
 	s8 := &bsigner{"s8", []*keyCert{k8}, map[string]bool{hostB: true}}
-	seqs := [][]*bsigner{{s1}, {s6, s2}, {s6, s5}, {s7, s8}, {s2}, {s3}, {s5, s1}, {s1, s2}, {s2, s1}, {s1, s3}, {s3, s1}, {s2, s3}, {s1, s2, s3}, {s4}, {s4, s2}, {s2, s4}, {s4, s2, s1}, {s5}, {s2, s5}}
+	// s3a, s3b: the certificate and key of s3 used for two signing steps, each vouching for the exchanges of one host only (a
+	// site signed in two passes, or an exchange added after the first pass): two vouched subsets that point at ONE leaf
+	s3a := &bsigner{"s3", s3.kcs, map[string]bool{hostA: true}}
+	s3b := &bsigner{"s3", s3.kcs, map[string]bool{hostB: true}}
+	seqs := [][]*bsigner{{s1}, {s3a, s3b}, {s3b, s5, s3a}, {s6, s2}, {s6, s5}, {s7, s8}, {s2}, {s3}, {s5, s1}, {s1, s2}, {s2, s1}, {s1, s3}, {s3, s1}, {s2, s3}, {s1, s2, s3}, {s4}, {s4, s2}, {s2, s4}, {s4, s2, s1}, {s5}, {s2, s5}}
 	ctx := &bsigCtx{}
 	var prev func()
 	week := int64(7 * 24 * 3600)
